@@ -143,9 +143,22 @@ def few_points_interval(idnt, segment, npts, axis="tip position"):
 # --------------------------------------------------------------------------
 # one configuration -> records
 # --------------------------------------------------------------------------
+_NCALLS = [0]
+
+
 def run_config(cfg):
     import fitpasses
     out = {"cfg": cfg, "fits": [], "pairs": []}
+    _NCALLS[0] += 1
+    if _NCALLS[0] % 40 == 1:
+        # process-state sentinel between the configurations of this worker
+        try:
+            import curve_check
+            out["sentinel"] = curve_check.sentinel()
+        except BaseException as exc:
+            if isinstance(exc, (KeyboardInterrupt, SystemExit)):
+                raise
+            out["sentinel"] = {"raised": type(exc).__name__}
     try:
         if cfg["kind"] == "rank":
             idnt, g = rank_curve(cfg["n_app"], cfg["n_ret"],
@@ -361,9 +374,15 @@ def execute(cfgs, nproc=None):
         return list(pool.map(run_config, cfgs, chunksize=8))
 
 
-def validate(ctx, fits, pairs, label, batch=1500):
+SENTINEL_FAILED = []
+
+
+def validate(ctx, fits, pairs, label, batch=1500, sentinels=()):
     import fitpasses
     failed_f, failed_p = {}, {}
+    fields = sorted({k for sd in sentinels for k in sd}) or ["pad"]
+    sent = [{k: sd.get(k, "missing") for k in fields}
+            for sd in sentinels] or [{"pad": "pad"}]
     states = 0
     pad_pair = {"cp_same": True, "bl_same": True, "fit_same": True,
                 "xminmax_same": True, "e_scaled": True, "mask_same": True}
@@ -376,7 +395,8 @@ def validate(ctx, fits, pairs, label, batch=1500):
                for p in pairs] if b0 == 0 else []
         path.write_text(json.dumps(vcommon.jsonable(
             {"fits": [fitpasses.slim_for_tlc(r) for r in chunk],
-             "pairs": prs or [pad_pair]})))
+             "pairs": prs or [pad_pair],
+             "sentinels": sent if b0 == 0 else [{"pad": "pad"}]})))
         res = vcommon.tlc("FitPassesTrace.tla", "FitPassesTrace.cfg",
                           ctx.scratch, env={"TRACE_FILE": path}, workers=1,
                           coverage=False, timeout=3600, jvm_opts=["-Xmx8g"])
@@ -390,6 +410,8 @@ def validate(ctx, fits, pairs, label, batch=1500):
                 failed_f[b0 + obj["fit"] - 1] = sorted(obj["failed"])
             elif "pair" in obj and b0 == 0 and prs:
                 failed_p[obj["pair"] - 1] = sorted(obj["failed"])
+            elif "sentinel_fields" in obj:
+                SENTINEL_FAILED[:] = sorted(obj["sentinel_fields"])
     return failed_f, failed_p, states
 
 
@@ -435,8 +457,17 @@ def run_engine(ctx, prefix, focus, with_ranks):
             raise MachineryError(
                 f"rank projection mismatch: {rec['cfg']} -> "
                 f"{rec['req_lo']},{rec['req_hi']}")
+    sentinels = [r["sentinel"] for r in results if "sentinel" in r]
     ff, fpair, states = validate(ctx, fits, [
-        {k: v for k, v in p.items() if k != "cfg"} for p in pairs], "main")
+        {k: v for k, v in p.items() if k != "cfg"} for p in pairs], "main",
+        sentinels=sentinels)
+    ctx.coverage["sentinel_runs"] = len(sentinels)
+    if SENTINEL_FAILED:
+        ctx.report(f"{prefix}ProcessHistoryFree|" + ",".join(SENTINEL_FAILED),
+                   "default-everything calls on FRESH objects give different "
+                   "results depending on what the worker process did before "
+                   f"(fields that differ between runs: {SENTINEL_FAILED})",
+                   {"kind": "sentinel", "fields": list(SENTINEL_FAILED)})
     ctx.tlc_states += states
     ctx.tlc_transitions += sum(len(r["passes"]) for r in fits)
     ctx.traces = len(fits) + len(pairs)
@@ -501,6 +532,11 @@ def fingerprint(c):
 
 
 def replay(ctx, obj, prefix):
+    if obj.get("kind") == "sentinel":
+        print("process-state sentinel: the fields", obj.get("fields"),
+              "differed between runs of the default-everything calls in one "
+              "worker process; re-run the check to reproduce")
+        return False
     r = run_config(obj["cfg"])
     if r.get("error"):
         print(r["error"])
